@@ -22,6 +22,9 @@ M = {
   ("parser-sgtype-byteorder-swapped", "dbc/parser.go", "\t\tif byteOrder == 0 {\n\t\t\tsigType.ByteOrder = SignalBigEndian", "\t\tif byteOrder == 1 {\n\t\t\tsigType.ByteOrder = SignalBigEndian"),
   ("parser-valtable-skips-last-value", "dbc/parser.go", "\t\tvt.Values = append(vt.Values, vd)\n", "\t\tif len(vt.Values) < 2 {\n\t\t\tvt.Values = append(vt.Values, vd)\n\t\t}\n"),
   ("writer-float-precision-6", "dbc/writer.go", "strconv.FormatFloat(val, 'f', -1, 64)", "strconv.FormatFloat(val, 'f', 6, 64)"),
+  ("writer-absent-nodes-write-placeholder", "dbc/writer.go", "\t\tw.writeNodes(&Nodes{})", "\t\tw.writeNodes(&Nodes{Names: []string{DummyNode}})"),
+  # only visible outside the parser's image (a document without BU_ never comes out of the parser), and the text still parses to an equivalent document
+  ("writer-absent-nodes-extra-blank", "dbc/writer.go", "\t\tw.writeNodes(&Nodes{})", "\t\tw.print(\"%s: \", getKeyword(keywordNode))\n\t\tw.newLine()\n\t\tw.newLine()"),
   ("scanner-ident-no-dash", "dbc/scanner.go", "return isLetter(ch) || isNumber(ch) || ch == '_' || ch == '-'", "return isLetter(ch) || isNumber(ch) || ch == '_'"),
  ],
  "C09": [
